@@ -750,6 +750,289 @@ def py_call(repo):
     return int(big.group(1)), ensure, len(lits[0]), len(lits[1])
 
 
+def graph_walks(repo):
+    """the remaining recursive walks over the USE/REFERENCE graph: marked with the current search id before recursing, and
+    nothing in the body starts another search (which would make the marks stale)"""
+    import glob as _glob
+    bumpers = set()
+    for f in sorted(_glob.glob(os.path.join(repo, "src/express/*.c"))):
+        t = _strip_comments(open(f, encoding="latin-1").read())
+        for m in re.finditer(r"^[A-Za-z_][\w \*]*?\b(\w+)\s*\([^;{)]*\)\s*\{", t, re.M):
+            try:
+                b = _body(t[m.start():], r"\b" + m.group(1) + r"\s*\([^;{)]*\)\s*\{", m.group(1))
+            except Exception:
+                continue
+            if re.search(r"__SCOPE_search_id\s*\+\+|\+\+\s*__SCOPE_search_id", b):
+                bumpers.add(m.group(1))
+    if len(bumpers) < 4:
+        raise ValueError(f"only {sorted(bumpers)} found as functions that start a search")
+    out = []
+    for rel, sig, fn in (("src/express/schema.c", r"static\s+void\s+SCHEMA_get_entities_use\s*\([^)]*\)\s*\{", "SCHEMA_get_entities_use"),
+                         ("src/express/scope.c", r"void\s*\*\s*SCOPE_find\s*\([^)]*\)\s*\{", "SCOPE_find")):
+        t = _strip_comments(_read(repo, rel))
+        b = _body(t, sig, fn)
+        g = re.search(r"if\s*\(\s*scope->search_id\s*==\s*__SCOPE_search_id\s*\)\s*\{\s*return\b[^;]*;\s*\}\s*scope->search_id\s*=\s*__SCOPE_search_id\s*;", b)
+        rec = b.find(fn + "(")
+        if rec < 0:
+            raise ValueError(f"{fn}: recursion not found")
+        calls = set(re.findall(r"\b([A-Za-z_]\w*)\s*\(", b))
+        stale = sorted((calls & bumpers) - {fn})
+        out.append((fn, bool(g and g.end() < rec and not stale)))
+    # SCOPE_dfs (SCOPEget_entities_superclass_order, used by both generators): walk over the supertypes, ENTITY_MARK
+    t = _strip_comments(_read(repo, "src/express/scope.c"))
+    b = _body(t, r"void\s+SCOPE_dfs\s*\([^)]*\)\s*\{", "SCOPE_dfs")
+    g = re.search(r"if\s*\(\s*\(?\s*ENTITYget_mark\s*\(\s*root\s*\)\s*!=\s*ENTITY_MARK\s*\)?\s*\)\s*\{\s*ENTITYput_mark\s*\(\s*root\s*,\s*ENTITY_MARK\s*\)\s*;", b)
+    rec = b.find("SCOPE_dfs(")
+    calls = set(re.findall(r"\b([A-Za-z_]\w*)\s*\(", b))
+    known = {"if", "ENTITYget_mark", "ENTITYput_mark", "LISTdo", "ENTITYget_supertypes", "DICTlookup", "ENTITYget_name", "SCOPE_dfs", "LISTadd_last"}
+    out.append(("SCOPE_dfs", bool(g and rec > g.end() and calls <= known and not re.search(r"ENTITY_MARK\s*(\+\+|=[^=])|\+\+\s*ENTITY_MARK", b))))
+    # TYPE_resolve_: defined types that refer to each other (TYPE a = b; TYPE b = a; / aggregates / selects)
+    t = _strip_comments(_read(repo, "src/express/resolve.c"))
+    b = _body(t, r"static\s+void\s+TYPE_resolve_\s*\([^)]*\)\s*\{", "TYPE_resolve_")
+    hd = _strip_comments(_read(repo, "include/express/resolve.h")) + _strip_comments(_read(repo, "include/express/expbasic.h"))
+    macro = re.search(r"#define\s+TYPEresolve\(t\)\s+if\s*\(is_resolvable\(\(\*\(t\)\)\)\)\s*TYPE_resolve\(\(t\)\)", hd)
+    notres = re.search(r"#define\s+is_not_resolvable\(x\)\s+\(\(x\)->symbol\.resolved\s*&\s*\(([A-Z_|]+)\)\)", hd)
+    isres = re.search(r"#define\s+is_resolvable\(x\)\s+\(!is_not_resolvable\(x\)\)", hd)
+    br1 = re.search(r"if\s*\(\s*body\s*\)\s*\{\s*resolve_in_progress\s*\(\s*type\s*\)\s*;", b)
+    br2 = re.search(r"else\s+if\s*\(\s*type->u\.type->head\s*\)\s*\{\s*resolve_in_progress\s*\(\s*type\s*\)\s*;\s*TYPEresolve\s*\(", b)
+    first_rec = b.find("TYPEresolve(")
+    ok = bool(macro and isres and notres and {"RESOLVE_FAILED", "RESOLVED", "RESOLVE_IN_PROGRESS"} <= set(notres.group(1).split("|"))
+              and br1 and br2 and first_rec > br1.end())
+    out.append(("TYPE_resolve_", ok))
+    # RENAMEresolve <-> SCOPE_find_for_rename: item-wise USE/REFERENCE chains.  A rename is "seen" once it has an object, has
+    # failed or is in progress; the in-progress mark is set before the search, and is only cleared after one of the other two
+    # has been set.
+    t = _strip_comments(_read(repo, "src/express/express.c"))
+    b = _body(t, r"void\s+RENAMEresolve\s*\([^)]*\)\s*\{", "RENAMEresolve")
+    pos = [re.search(p_, b) for p_ in (
+        r"if\s*\(\s*r->object\s*\)\s*\{\s*return\s*;",
+        r"if\s*\(\s*is_resolve_failed_raw\s*\(\s*r->old\s*\)\s*\)\s*\{\s*return\s*;",
+        r"if\s*\(\s*is_resolve_in_progress_raw\s*\(\s*r->old\s*\)\s*\)\s*\{[^}]*return\s*;",
+        r"resolve_in_progress_raw\s*\(\s*r->old\s*\)\s*;\s*remote\s*=\s*SCOPEfind_for_rename\s*\(",
+        r"if\s*\(\s*remote\s*==\s*0\s*\)\s*\{[^}]*resolve_failed_raw\s*\(\s*r->old\s*\)\s*;\s*\}\s*else\s*\{\s*r->object\s*=\s*remote\s*;",
+        r"resolve_not_in_progress_raw\s*\(\s*r->old\s*\)\s*;\s*$")]
+    ok = all(pos) and all(pos[i].start() < pos[i + 1].start() for i in range(len(pos) - 1))
+    out.append(("RENAMEresolve", bool(ok)))
+    return out, sorted(bumpers)
+
+
+# ------------------------------------------------------------------ exit-status discipline
+def _block_at(text, i):
+    """(content, end) of the brace block that opens at or after position i"""
+    j = text.index("{", i)
+    inner = _body(text[j - 1:], r".", "block")      # _body looks for the first '{' from the match on
+    return inner, j + 1 + len(inner) + 1
+
+
+_ACTS = [(r"^(v?fprintf\s*\(\s*(error_file|stderr)\b|fputc\s*\([^;]*,\s*(error_file|stderr)\s*\))", "print"),
+         (r"^ERROR_v?printf\s*\(", "buf"), (r"^ERROR_nexterror\s*\(\s*\)", "commit"),
+         (r"^ERRORoccurred\s*=\s*true$", "setOccurred"), (r"^(ERROR_flush_message_buffer|ERRORflush_messages)\s*\(\s*\)$", "flush")]
+
+
+def _acts(block, what):
+    out = []
+    for st in block.split(";"):
+        st = " ".join(st.split())
+        if not st:
+            continue
+        for rx, a in _ACTS:
+            if re.search(rx, st):
+                out.append(a)
+                break
+        else:
+            raise ValueError(f"{what}: statement not understood: {st!r}")
+    return out
+
+
+def _sev_branches(text, what):
+    """the three-part shape  if (sev >= ERROR) {A} else {B}  if (sev >= EXIT [|| full...]) { C  if (sev >= DUMP) abort(); else exit(EXPRESS_fail(0)); }"""
+    m = re.search(r"if\s*\(\s*what->severity\s*>=\s*SEVERITY_ERROR\s*\)\s*\{", text)
+    if not m:
+        raise ValueError(f"{what}: severity test not found")
+    a, e1 = _block_at(text, m.end() - 1)
+    m2 = re.match(r"\s*else\s*\{", text[e1:])
+    if not m2:
+        raise ValueError(f"{what}: else branch of the severity test not found")
+    b, e2 = _block_at(text, e1 + m2.end() - 1)
+    m3 = re.match(r"\s*if\s*\(\s*what->severity\s*>=\s*SEVERITY_EXIT\s*(\|\|[^{]*)?\)\s*\{", text[e2:])
+    if not m3:
+        raise ValueError(f"{what}: SEVERITY_EXIT test not found")
+    c, e3 = _block_at(text, e2 + m3.end() - 1)
+    m4 = re.search(r"if\s*\(\s*what->severity\s*>=\s*SEVERITY_DUMP\s*\)\s*\{\s*abort\s*\(\s*\)\s*;\s*\}\s*else\s*\{\s*exit\s*\(\s*EXPRESS_fail\s*\([^;]*\)\s*\)\s*;\s*\}\s*$", c)
+    if not m4:
+        raise ValueError(f"{what}: abort()/exit( EXPRESS_fail ) decision not found")
+    if text[e3:].strip():
+        raise ValueError(f"{what}: code after the exit decision: {text[e3:].strip()[:60]!r}")
+    return {"pre": text[:m.start()], "err": _acts(a, what), "warn": _acts(b, what), "exit": _acts(c[:m4.start()], what), "alsoWhenFull": bool(m3.group(1))}
+
+
+def _functions(text):
+    """name -> body of every function defined in (comment-free) C text"""
+    out = {}
+    for m in re.finditer(r"^(?:[A-Za-z_][\w \t\*]*?[ \t\*])?(\w+)\s*\(([^;{}()]|\([^;{}()]*\))*\)\s*\{", text, re.M):
+        if m.group(1) in ("if", "while", "for", "switch"):
+            continue
+        try:
+            out.setdefault(m.group(1), _body(text[m.start():], r"\)\s*\{", m.group(1)))
+        except (IndexError, ValueError):
+            pass
+    return out
+
+
+def _drop_disabled(text):
+    return re.sub(r"^[ \t]*#\s*if(def\s+HASHTEST|\s+0)\b.*?^[ \t]*#\s*endif[^\n]*", "", text, flags=re.S | re.M)
+
+
+def exit_discipline(repo):
+    hdr = _strip_comments(_read(repo, "include/express/error.h"))
+    m = re.search(r"enum\s+Severity\s*\{([^}]*)\}", hdr)
+    names = [x.strip().split("=")[0].strip() for x in m.group(1).split(",") if x.strip()]
+    if names[:4] != ["SEVERITY_WARNING", "SEVERITY_ERROR", "SEVERITY_EXIT", "SEVERITY_DUMP"]:
+        raise ValueError(f"enum Severity: {names}")
+    sev = {n: i for i, n in enumerate(names)}
+    m = re.search(r"enum\s+ErrorCode\s*\{([^}]*)\}", hdr)
+    codes = [x.strip().split("=")[0].strip() for x in m.group(1).split(",") if x.strip()]
+    err_c = _strip_comments(_read(repo, "src/express/error.c"))
+    m = re.search(r"LibErrors\s*\[\s*\]\s*=\s*\{", err_c)
+    table, _ = _block_at(err_c, m.end() - 1)
+    entries = dict(re.findall(r"\[\s*(\w+)\s*\]\s*=\s*\{\s*(SEVERITY_\w+)\s*,", table))
+    missing = [c for c in codes if c not in entries]
+    if missing or len(entries) != len(codes):
+        raise ValueError(f"LibErrors and enum ErrorCode differ: {missing[:5]}")
+    sevs = [sev[entries[c]] for c in codes]
+    fns = _functions(err_c)
+    gate = r"^\s*(va_list\s+args\s*;|va_start\s*\([^;]*;|Error\s+what\s*=\s*&LibErrors\[errnum\]\s*;|\s)*if\s*\(\s*errnum\s*!=\s*SUBORDINATE_FAILED\s*&&\s*ERRORis_enabled\s*\(\s*errnum\s*\)\s*\)\s*\{"
+    reports = []
+    # ERRORreport: prints directly in both modes
+    b = fns["ERRORreport"]
+    mg = re.search(gate, b)
+    if not mg:
+        raise ValueError("ERRORreport: enabled/SUBORDINATE_FAILED gate not found")
+    inner, e = _block_at(b, mg.end() - 1)
+    if re.sub(r"va_end\s*\(\s*args\s*\)\s*;", "", b[e:]).strip():
+        raise ValueError("ERRORreport: code after the gated block")
+    r = _sev_branches(inner, "ERRORreport")
+    if r["pre"].strip():
+        raise ValueError("ERRORreport: code before the severity test")
+    reports.append(("ERRORreport", r))
+    b = fns["ERRORvreport_with_symbol"]
+    mg = re.search(gate, b)
+    if not mg:
+        raise ValueError("ERRORvreport_with_symbol: gate not found")
+    inner, e = _block_at(b, mg.end() - 1)
+    if b[e:].strip():
+        raise ValueError("ERRORvreport_with_symbol: code after the gated block")
+    mb = re.match(r"\s*if\s*\(\s*__ERROR_buffer_errors\s*\)\s*\{", inner)
+    if not mb:
+        raise ValueError("ERRORvreport_with_symbol: buffered/unbuffered split not found")
+    buf, e1 = _block_at(inner, mb.end() - 1)
+    me = re.match(r"\s*else\s*\{", inner[e1:])
+    unb, e2 = _block_at(inner, e1 + me.end() - 1)
+    if inner[e2:].strip():
+        raise ValueError("ERRORvreport_with_symbol: code after the unbuffered branch")
+    rb = _sev_branches(buf, "ERRORvreport_with_symbol/buffered")
+    # what precedes in the buffered branch is the heap insertion: no output, no flag
+    if re.search(r"printf|ERRORoccurred|exit\s*\(|abort\s*\(", rb["pre"]):
+        raise ValueError("ERRORvreport_with_symbol: output or exit in the heap insertion")
+    ru = _sev_branches(unb, "ERRORvreport_with_symbol/unbuffered")
+    if ru["pre"].strip():
+        raise ValueError("ERRORvreport_with_symbol: code before the severity test (unbuffered)")
+    reports += [("ERRORvreport_with_symbol/buffered", rb), ("ERRORvreport_with_symbol/unbuffered", ru)]
+    enabled = re.search(r"ERRORis_enabled\s*\([^)]*\)\s*\{\s*Error\s+err\s*=\s*&LibErrors\[errnum\]\s*;\s*return\s*!\s*err->override\s*;", err_c)
+    if not enabled:
+        raise ValueError("ERRORis_enabled: not the negated override flag")
+    # the flush prints every stored message and empties the heap
+    fl = fns["ERROR_flush_message_buffer"]
+    if not re.search(r"while\s*\(\s*ERROR_with_lines\s*\)\s*\{[^}]*fprintf\s*\(\s*stderr\s*,[^;]*heap\[1\]\.msg", fl, re.S) or "ERROR_with_lines--" not in fl:
+        raise ValueError("ERROR_flush_message_buffer: print-and-pop loop not found")
+    inl = re.search(r"ERRORflush_messages\s*\(\s*void\s*\)\s*\{\s*if\s*\(\s*__ERROR_buffer_errors\s*\)\s*\{\s*ERROR_flush_message_buffer\s*\(\s*\)\s*;", hdr)
+    if not inl:
+        raise ValueError("ERRORflush_messages: does not flush")
+    ex_c = _strip_comments(_read(repo, "src/express/express.c"))
+    efn = _functions(ex_c)
+
+    def tail(fn, status_re):
+        b = efn[fn]
+        mh = re.search(r"if\s*\(\s*EXPRESS(fail|succeed)\s*\)\s*\{\s*return\s*\(\s*\(\s*\*\s*EXPRESS(fail|succeed)\s*\)\s*\(\s*model\s*\)\s*\)\s*;\s*\}", b)
+        if not mh:
+            raise ValueError(f"{fn}: hook call not found")
+        before = _acts(b[:mh.start()], fn)
+        mt = re.match(r"\s*(fprintf\s*\(\s*stderr\s*,[^;]*)\s*;\s*return\s+(\d+)\s*;\s*$", b[mh.end():])
+        if not mt:
+            raise ValueError(f"{fn}: trailer and status not found")
+        return before, int(mt.group(2))
+    fail_pre, fail_status = tail("EXPRESS_fail", None)
+    succ_pre, succ_status = tail("EXPRESS_succeed", None)
+    # who installs a failure hook (nobody, in the four tools); the success hooks print their own line
+    hooks_fail = []
+    for f in sorted(_glob_sources(repo)):
+        t = _strip_comments(open(f, encoding="latin-1").read())
+        if re.search(r"\bEXPRESSfail\s*=[^=]", t):
+            hooks_fail.append(os.path.relpath(f, repo))
+    # main(): the checks of ERRORoccurred after the three phases
+    fx = _strip_comments(_read(repo, "src/express/fedex.c"))
+    mainb = _functions(fx)["main"]
+    pos = {k: mainb.find(k) for k in ("EXPRESSparse(", "EXPRESSresolve(", "( *EXPRESSbackend )(", "EXPRESS_succeed(")}
+    if min(pos.values()) < 0:
+        raise ValueError(f"main: phases not found {pos}")
+    chk = [mm.start() for mm in re.finditer(r"if\s*\(\s*ERRORoccurred\s*\)\s*\{\s*result\s*=\s*EXPRESS_fail\s*\(\s*model\s*\)\s*;[^}]*return\s+result\s*;\s*\}", mainb)]
+    order = [pos["EXPRESSparse("], pos["EXPRESSresolve("], pos["( *EXPRESSbackend )("], pos["EXPRESS_succeed("]]
+    checks = [any(order[i] < c < order[i + 1] for c in chk) for i in range(3)]
+    mu = re.search(r"if\s*\(\s*!input_filename\s*\)\s*\{(.*?)\n    \}\n", mainb, re.S)
+    no_input = mu.group(1) if mu else ""
+    usage_guarded = bool(re.search(r"else\s+if\s*\(\s*ERRORusage_function\s*\)\s*\{\s*\(\s*\*\s*ERRORusage_function\s*\)\s*\(\s*\)\s*;\s*\}\s*else\s*\{\s*EXPRESSusage\s*\(\s*1\s*\)\s*;", no_input))
+    if "ERRORusage_function" not in no_input:
+        raise ValueError("main: the path without an input file was not found")
+    sets_usage = {"check-express": bool(re.search(r"ERRORusage_function\s*=\s*[A-Za-z_]", _strip_comments(_read(repo, "src/express/inithook.c"))))}
+    for tool, rel in (("exppp", "src/exppp/exppp-main.c"), ("exp2cxx", "src/exp2cxx/fedex_main.c"), ("exp2python", "src/exp2python/src/fedex_main_python.c")):
+        sets_usage[tool] = bool(re.search(r"ERRORusage_function\s*=\s*[A-Za-z_]", _strip_comments(_read(repo, rel))))
+    # every other exit( ) of the four tools
+    sites = []
+    for f in sorted(_glob_sources(repo)):
+        rel = os.path.relpath(f, repo)
+        t = _drop_disabled(_strip_comments(open(f, encoding="latin-1").read()))
+        if "exit" not in t:
+            continue
+        ff = _functions(t)
+
+        def prints(body, depth=0):
+            if re.search(r"fprintf\s*\(\s*stderr|ERRORreport|\bperror\s*\(", body):
+                return True
+            if depth >= 3:
+                return False
+            return any(prints(ff[c], depth + 1) for c in set(re.findall(r"\b([A-Za-z_]\w*)\s*\(", body)) if c in ff and ff[c] is not body)
+        for name, body in ff.items():
+            for mm in re.finditer(r"\bexit\s*\(\s*(.*?)\s*\)\s*;", body):
+                arg = " ".join(mm.group(1).split())
+                if rel.endswith("src/express/error.c") and "EXPRESS_fail" in arg:
+                    continue            # the three exits modelled above
+                before = body[:mm.start()]
+                # the condition that guards the exit counts as "before"
+                sites.append((f"{rel}:{name}", arg, prints(before)))
+    # ERRORoccurred is written nowhere else (the generated parser and scanner included)
+    import glob as _glob
+    stray = 0
+    for f in _glob_sources(repo) + _glob.glob(os.path.join(repo, "src/express/generated/*.c")) + _glob.glob(os.path.join(repo, "src/express/*.[yl]")):
+        t = _strip_comments(open(f, encoding="latin-1").read())
+        stray += len(re.findall(r"\bERRORoccurred\s*(=[^=]|\+\+|--|[|&^+\-]=)", t))
+    stray -= 1 + sum(r["err"].count("setOccurred") + r["warn"].count("setOccurred") for _, r in reports)     # the definition `= false` and the modelled ones
+    total = len(re.findall(r"\bexit\s*\(", "".join(_drop_disabled(_strip_comments(open(f, encoding="latin-1").read())) for f in _glob_sources(repo))))
+    if total != len(sites) + 3:
+        raise ValueError(f"{total} calls of exit( ) in the sources, {len(sites)} + 3 understood")
+    return {"sevs": sevs, "subordinate": codes.index("SUBORDINATE_FAILED"), "reports": reports, "failPre": fail_pre, "failStatus": fail_status,
+            "succPre": succ_pre, "succStatus": succ_status, "failHooks": hooks_fail, "checks": checks, "usageGuarded": usage_guarded,
+            "setsUsage": sets_usage, "sites": sites, "stray": stray, "thresholds": (sev["SEVERITY_ERROR"], sev["SEVERITY_EXIT"], sev["SEVERITY_DUMP"])}
+
+
+def _glob_sources(repo):
+    import glob as _glob
+    out = []
+    for d in ("src/express", "src/exppp", "src/exp2cxx", "src/exp2python/src"):
+        for ext in ("*.c", "*.cc"):
+            out += _glob.glob(os.path.join(repo, d, ext))
+    return [f for f in out if "/test" not in f]
+
+
 def _opt(v):
     return "none" if v is None else f"(some {v})"
 
@@ -771,6 +1054,8 @@ def extract(repo):
     pyind = python_indent(repo)
     rs_guard = rename_search(repo)
     sc_cap, sc_guard = scan_buffers(repo)
+    walks, bumpers = graph_walks(repo)
+    xd = exit_discipline(repo)
     oc_cap, oc_guarded = open_comments(repo)
     sf_cap, sf_name, sf_bounded, sf_ext, sf_dir = schema_files(repo)
     es_mul, es_add, es_per = escape_buffer(repo)
@@ -880,6 +1165,31 @@ def extract(repo):
     A(f"def escapeCfg : EscapeCfg := {{ mul := {es_mul}, add := {es_add}, perChar := {es_per} }}")
     A("/-- exp2python `EXPRto_python`, function-call branch -/")
     A(f"def pyCallCfg : PyCallCfg := {{ initial := {py_init}, ensure := {_opt(py_ensure)}, sep := {py_sep}, close := {py_close} }}")
+    A("/-- recursive walks over the USE graph: (function, marks the schema with the current search id before recursing and starts no other search meanwhile) -/")
+    A("def graphWalks : List (String × Bool) := [" + ", ".join(f'("{f}", {str(ok).lower()})' for f, ok in walks) + "]")
+    A("/-- functions of src/express that start a new search (increment `__SCOPE_search_id`) -/")
+    A("def searchStarters : List String := [" + ", ".join(f'"{x}"' for x in bumpers) + "]")
+    def _fn(r):
+        acts = lambda l: "[" + ", ".join("." + a for a in l) + "]"
+        return f"{{ errActs := {acts(r['err'])}, warnActs := {acts(r['warn'])}, exitActs := {acts(r['exit'])}, alsoWhenFull := {str(r['alsoWhenFull']).lower()} }}"
+    acts = lambda l: "[" + ", ".join("." + a for a in l) + "]"
+    rep = dict(xd["reports"])
+    A("/-- error.c / express.c / fedex.c: the branches of the reporting functions as action sequences, the severities of LibErrors,")
+    A("EXPRESS_fail / EXPRESS_succeed, and the `if( ERRORoccurred )` tests of main after parse, resolve and back end -/")
+    A("def exitDiscCfg : ExitDiscCfg :=")
+    A(f"  {{ sevs := {xd['sevs']}, subordinate := {xd['subordinate']},")
+    A(f"    sevError := {xd['thresholds'][0]}, sevExit := {xd['thresholds'][1]}, sevDump := {xd['thresholds'][2]},")
+    A(f"    plain := {_fn(rep['ERRORreport'])},")
+    A(f"    symBuffered := {_fn(rep['ERRORvreport_with_symbol/buffered'])},")
+    A(f"    symPlain := {_fn(rep['ERRORvreport_with_symbol/unbuffered'])},")
+    A(f"    failActs := {acts(xd['failPre'])}, failHooks := {len(xd['failHooks'])}, strayWrites := {xd['stray']}, failStatus := {xd['failStatus']},")
+    A(f"    succActs := {acts(xd['succPre'])}, succStatus := {xd['succStatus']},")
+    A(f"    checks := [{', '.join(str(b).lower() for b in xd['checks'])}] }}")
+    A("/-- every other `exit( )` in the sources of the four tools: (file:function, argument, something is printed to stderr before it in that function or in a function it calls) -/")
+    A("def exitSites : List (String × String × Bool) := [" + ", ".join(f'("{a}", "{b}", {str(c).lower()})' for a, b, c in xd["sites"]) + "]")
+    A("/-- main without an input file: the usage function pointer is tested before it is called (check-express installs none) -/")
+    A(f"def usageFallback : Bool := {str(xd['usageGuarded']).lower()}")
+    A("def installsUsage : List (String × Bool) := [" + ", ".join(f'("{k}", {str(v).lower()})' for k, v in sorted(xd["setsUsage"].items())) + "]")
     A("")
     A("end StepModel.Generated.C06")
     return {"C06Buffers.lean": "\n".join(L) + "\n"}
